@@ -87,6 +87,21 @@ pub struct Marker {
     pub log: EventLog,
     pub db_path: PathBuf,
     pub snapshots: bool,
+    pub probe: Option<(Arc<Watcher>, Arc<Responder>)>,
+}
+
+impl Marker {
+    fn index_snapshot(&self) -> Option<Box<crate::events::IndexSnap>> {
+        let (w, r) = self.probe.as_ref()?;
+        let (ce, cb) = w.verif_locator_cache();
+        let (ie, ib) = r.verif_tx_index();
+        Some(Box::new(crate::events::IndexSnap {
+            cache_entries: ce.into_iter().map(|(l, t)| (l.to_vec(), t)).collect(),
+            cache_blocks: cb.into_iter().map(|(b, ks, h)| (b, ks.len(), h)).collect(),
+            index_entries: ie,
+            index_blocks: ib.into_iter().map(|(b, ks, h)| (b, ks.len(), h)).collect(),
+        }))
+    }
 }
 
 impl chain::Listen for Marker {
@@ -103,6 +118,7 @@ impl chain::Listen for Marker {
                 hash: header.block_hash(),
                 height,
                 db,
+                idx: self.index_snapshot(),
             });
         }
     }
@@ -119,6 +135,7 @@ impl chain::Listen for Marker {
                 hash: header.block_hash(),
                 height,
                 db,
+                idx: self.index_snapshot(),
             });
         }
     }
@@ -216,12 +233,14 @@ pub fn run_tower<R>(
         log: log.clone(),
         db_path: db_path.clone(),
         snapshots,
+        probe: None,
     });
     let post = Box::new(Marker {
         pre: false,
         log: log.clone(),
         db_path: db_path.clone(),
         snapshots,
+        probe: snapshots.then(|| (watcher.clone(), responder.clone())),
     });
     // main.rs: `&(gatekeeper, &(watcher.clone(), responder))` -- the same order, bracketed by the two markers.
     let inner3 = (responder.clone(), post);
